@@ -96,6 +96,36 @@ pub trait IndexBase {
     fn rebuild_full(&mut self, key: &Vec<ColumnId>, table: WrappedTableRef<'_>, subset: SubsetRef<'_>)
         requires old(self).indexed() == Set::<int>::empty(),
         ensures final(self).indexed() == subset.rows();
+    fn merge_rows(&mut self, buf: &TaggedRowBuffer)
+        ensures final(self).indexed() == old(self).indexed().union(buf.rows());
+}
+
+/// A-db: a buffer of (row id, projected row) pairs: the set of row ids it holds
+#[verifier::external_body]
+pub struct TaggedRowBuffer { _p: core::marker::PhantomData<u8> }
+impl TaggedRowBuffer {
+    pub uninterp spec fn rows(&self) -> Set<int>;
+    #[verifier::external_body]
+    pub fn new(n: usize) -> (r: Self) ensures r.rows() == Set::<int>::empty() { unimplemented!() }
+    #[verifier::external_body]
+    pub fn clear(&mut self) ensures final(self).rows() == Set::<int>::empty() { unimplemented!() }
+}
+#[verifier::external_body]
+pub struct Constraint { _p: core::marker::PhantomData<u8> }
+/// the rows of a subset at scan positions [from, to) (a scan visits the subset in order, `n` rows per call)
+pub uninterp spec fn sp(s: Set<int>, from: nat, to: nat) -> Set<int>;
+pub axiom fn ax_sp_empty(s: Set<int>, a: nat) ensures sp(s, a, a) == Set::<int>::empty();
+pub axiom fn ax_sp_split(s: Set<int>)
+    ensures forall|a: nat, b: nat, c: nat| #![trigger sp(s, a, b), sp(s, b, c)] a <= b <= c ==> sp(s, a, b).union(sp(s, b, c)) == sp(s, a, c);
+impl WrappedTableRef<'_> {
+    // A-db: scan_project(subset, cols, start, n, no constraints, out): appends the (live) rows of the subset at scan
+    // positions [start, start + n) and returns where to continue, or None when the subset is exhausted
+    #[verifier::external_body]
+    pub fn scan_project(&self, subset: SubsetRef<'_>, cols: &Vec<ColumnId>, start: Offset, n: usize, cs: &[Constraint], out: &mut TaggedRowBuffer) -> (r: Option<Offset>)
+        ensures
+            final(out).rows() == old(out).rows().union(sp(subset.rows(), start.ix(), (start.ix() + n) as nat)),
+            match r { Some(next) => next.ix() == start.ix() + n, None => sp(subset.rows(), 0, (start.ix() + n) as nat) == subset.rows() },
+    { unimplemented!() }
 }
 
 #[verifier::external_body]
@@ -103,17 +133,6 @@ pub fn parallelize_index_construction(n: usize) -> bool { unimplemented!() }
 
 //@ item core-relations/src/common.rs struct SubsetTracker
 //@ item core-relations/src/hash_index/mod.rs struct Index
-
-impl<TI: IndexBase> Index<TI> {
-    // ASSUMED: the batch scan loop of refresh_serial (scan_project + merge_rows) absorbs exactly `subset`
-    #[verifier::external_body]
-    pub fn refresh_serial(&mut self, table: WrappedTableRef<'_>, subset: Subset)
-        ensures
-            final(self).table.indexed() == old(self).table.indexed().union(subset.rows()),
-            final(self).key == old(self).key,
-            final(self).updated_to == old(self).updated_to,
-    { unimplemented!() }
-}
 
 //@ impl core-relations/src/common.rs impl SubsetTracker
 //@ fn recent_updates
@@ -130,6 +149,27 @@ impl<TI: IndexBase> Index<TI> {
 //@ end-impl
 
 //@ impl core-relations/src/hash_index/mod.rs impl<TI: IndexBase> Index<TI>
+//@ fn refresh_serial
+//@ at attr
+    #[verifier::exec_allows_no_decreases_clause]
+//@ at sig
+        ensures
+            // the batch loop absorbs exactly `subset`, the last (partial) batch included
+            final(self).table.indexed() == old(self).table.indexed().union(subset.rows()),
+            final(self).key == old(self).key,
+            final(self).updated_to == old(self).updated_to,
+//@ at before-loop 0
+        proof { ax_sp_empty(subset.rows(), 0); }
+//@ at loop 0 spec
+            invariant_except_break
+                self.table.indexed() =~= old(self).table.indexed().union(sp(subset.rows(), 0, cur.ix())),
+            invariant
+                self.key == old(self).key, self.updated_to == old(self).updated_to,
+            ensures
+                self.table.indexed() =~= old(self).table.indexed().union(subset.rows()),
+//@ at loop 0 body-start
+            proof { ax_sp_split(subset.rows()); }
+//@ end-fn
 //@ fn needs_refresh
 //@ ret r
 //@ at sig
